@@ -19,12 +19,17 @@ PROP = {'gen': ['base64'],
                'a deep argument: view-tree / Text / Glyph / GlyphFrame / Face deserialisation is total (their models have no panic '
                'site except the embedded image visitor; the theorem adds that recursion is bounded by the nesting depth); what '
                'happens inside put_fmt, Face::overlay, Glyph::new, Path / Scene parsing rests on the run. Last clause: every accepted '
-               'document has a view tree of the C10 model (same deserialiser, C10 constructors incl. VImageAscii and VRef; '
-               'C19_view_tree_covers) and that tree lays out under every valid '
-               'constraint and renders without panic or InvalidLayout (C10_total, used only through its Props-level statement). That the mapping builds the right tree is by '
-               'reading the code; the run lays out and renders every accepted view on the implementation (two contexts, 11 '
-               'constraints; Err counts as failure). "Rendered" means View::render into a surface: rasterisation of glyphs happens '
-               'later in the terminal renderer and is only probed (tagged, not judged).',
+               'document has a view tree of the C10 model (same deserialiser instantiated with C10 constructors, incl. image_ascii, '
+               'cached refs and handler types; C19_view_tree_covers) and, C10_total being re-exported at it, that tree lays out under '
+               'every valid constraint and renders without panic or InvalidLayout. That the mapping builds the right tree is checked '
+               'by the run on its node structure only (the layout-tree skeleton of the really deserialised view equals vskel of the '
+               'model tree: child count and order, wrappers, trace-layout, cached ref); node contents are arbitrary in the theorem. '
+               'The run lays out and renders every accepted view on the implementation (with and without glyph support, with and '
+               'without a cache and a handler, 15 constraints up to usize::MAX; Err counts as failure). "Rendered" in the theorems '
+               'means View::render into a surface. Rasterisation of stand-alone glyphs (done later by the terminal renderer) is run '
+               'and judged as well, EXCEPT in two known-finding classes decided on the document: a cell size whose pixel size '
+               'overflows usize (terminal.rs:658 panics) and degenerate geometry (empty / huge view box, path numbers beyond 1e30: '
+               'the rasterize crate panics); such glyphs cannot be rasterised by any arithmetic.',
  'level_note': 'Trusted: Coq kernel + vm_compute; regenerated base64 tables (C14) and the C14 decoder theorems; hand-written models '
                'validated by the correspondence run; serde_json (document -> data model), serde derive (Size) and rasterize (RGBA '
                'text form modelled for #rrggbb[aa]; colour names, /alpha, Path, Scene, BBox, FillRule and the derived Axis / Justify / '
@@ -48,5 +53,6 @@ PROP = {'gen': ['base64'],
                   HARNESS],
  'assumptions': ['attribute sets are an underline style (0..5) plus flags: after the repair of the compound assignment operators these are all values of FaceAttrs reachable through its public API',
                  'an image in memory has h*w pixels of 4 bytes with 4*h*w < 2^64; 64-bit usize',
-                 'documents reach the visitors through serde_json (text nested deeper than 128 levels is rejected by its parser)'
+                 'documents reach the visitors through serde_json (text nested deeper than 128 levels is rejected by its parser)',
+                 'KNOWN FINDINGS glyph-size-overflow and glyph-degenerate-geometry: accepted glyph documents of these classes panic when rasterised (after View::render); the last clause is stated for View::layout / View::render'
                  ]}
